@@ -121,16 +121,15 @@ func (o *CandidateNode) UnmarshalJSON(data []byte) error {
 	// otherwise, must be a scalar
 
 	// an integer literal is kept as written: going through float64 changes integers above 2^53
+	// (beyond 64 bits the text still survives a conversion to YAML; arithmetic on it reports an error)
 	if literal := string(bytes.TrimSpace(data)); jsonIntegerLiteral.MatchString(literal) {
-		if _, _, err := parseInt64(literal); err == nil {
-			o.Kind = ScalarNode
-			o.Tag = "!!int"
-			o.Value = literal
-			if literal == "-0" {
-				o.Value = "0"
-			}
-			return nil
+		o.Kind = ScalarNode
+		o.Tag = "!!int"
+		o.Value = literal
+		if literal == "-0" {
+			o.Value = "0"
 		}
+		return nil
 	}
 	var scalar interface{}
 	err := json.Unmarshal(data, &scalar)
